@@ -194,6 +194,52 @@ fn sub_lattice(spec: &Spec) -> Vec<V> {
     }
 }
 
+/// Per-component states for the bounds operations of compounds: outside the bounds, on a bound,
+/// and inside the bounds as a configuration but stored non-canonically (an angle one or two turns
+/// off, the +pi representative of the seam, a quaternion of length 2 or 1e-3, -q).
+fn wild_sub_lattice(spec: &Spec) -> Vec<V> {
+    match spec {
+        Spec::Rv { dim, .. } => {
+            let mk = |a: f64, b: f64| V::Rv((0..*dim).map(|i| if i % 2 == 0 { a } else { b }).collect());
+            vec![mk(0.5, -0.5), mk(9.0, -9.0), mk(5.0, -5.0), mk(-1e9, 2.0)]
+        }
+        Spec::So2 { .. } => vec![V::So2(0.3 + 2.0 * PI), V::So2(PI), V::So2(7.0), V::So2(-4.0 * PI + 2.4), V::So2(-3.0)],
+        Spec::So3 { .. } => {
+            let r = quat_axis_angle([0.0, 0.0, 1.0], 40.0);
+            let far = quat_axis_angle([1.0, 0.0, 0.0], 170.0);
+            vec![
+                V::So3([2.0 * r[0], 2.0 * r[1], 2.0 * r[2], 2.0 * r[3]]),
+                V::So3([1e-3 * r[0], 1e-3 * r[1], 1e-3 * r[2], 1e-3 * r[3]]),
+                V::So3(neg(r)),
+                V::So3(far),
+                V::So3([3.0 * far[0], 3.0 * far[1], 3.0 * far[2], 3.0 * far[3]]),
+            ]
+        }
+        _ => unreachable!(),
+    }
+}
+
+fn product(subs: &[Vec<V>]) -> Vec<V> {
+    let mut out: Vec<Vec<V>> = vec![vec![]];
+    for s in subs {
+        let mut n = Vec::new();
+        for pre in &out {
+            for x in s {
+                let mut p = pre.clone();
+                p.push(x.clone());
+                n.push(p);
+            }
+        }
+        out = n;
+    }
+    out.into_iter().map(V::Cmp).collect()
+}
+
+/// Product lattice for enforce_bounds / satisfies_bounds on compounds (see `wild_sub_lattice`).
+pub fn compound_wild_lattice(parts: &[Spec]) -> Vec<V> {
+    product(&parts.iter().map(wild_sub_lattice).collect::<Vec<_>>())
+}
+
 pub fn compound_lattice(parts: &[Spec]) -> Vec<V> {
     let subs: Vec<Vec<V>> = parts.iter().map(sub_lattice).collect();
     let mut out: Vec<Vec<V>> = vec![vec![]];
